@@ -7,7 +7,8 @@ CONSTANTS Keys = {1, 2, 3, 4}
           Rej = FALSE
           EK = 0
           TName = "IntIntMap"
+          NHeld = 0
 VIEW View
 INVARIANTS SetOK RefuseOK KeysBagExact WireRoundTrip
-PROPERTIES Frame PutStores RefusalInert AddSums AddIfExistNeverCreates RemoveExact ClearEmpties PutAllIsPuts ReadOnlyKeeps SizeLaw
+PROPERTIES Frame PutStores RefusalInert AddSums AddIfExistNeverCreates RemoveExact ClearEmpties PutAllIsPuts ReadOnlyKeeps OthersKept PutAllFromIsPuts SizeLaw
 CHECK_DEADLOCK FALSE
